@@ -226,7 +226,8 @@ pub fn wiring_and_interface_check(u: &Universe, st: &State, bytes: &[u8], define
 
     // component imports (imported mode): one per instantiated package
     let inst_pkgs: BTreeSet<usize> = m.nodes.values().filter(|n| n.kind == RKind::Inst).map(|n| n.pkg.unwrap()).collect();
-    let comp_imports: Vec<&String> = d.imports.iter().filter(|(_, k)| *k == Kind::Component).map(|(n, _)| n).collect();
+    let comp_imports: Vec<&String> =
+        d.imports.iter().filter(|(n, k)| *k == Kind::Component && n.starts_with("unlocked-dep=")).map(|(n, _)| n).collect();
     let mut comp_names = BTreeMap::new();
     if define {
         let want: BTreeMap<String, usize> = multiset(inst_pkgs.iter().map(|p| mc_core::sha256_hex(u.packages[*p].bytes())));
